@@ -1015,6 +1015,10 @@ def run_impl(case):
         except Exception as e:  # noqa: BLE001
             raised = e
         rj = cidx.get(id(ret), -9) if ret is not None else None
+        if kind in ("rand_empty", "place_rand") and raised is None and ret is None:
+            rj = -9
+            fail("C06/select_random_empty_cell/returned-no-cell", i, f"{op}: select_random_empty_cell returned None")
+            poisoned[0] = True
         if kind in ("rand_empty", "place_rand"):
             op_m = op_m + [rj]
             have_empty = any(not occupants(j) for j in range(ncells))
